@@ -625,3 +625,56 @@ func (e *Exec) InputValues() []uint64 {
 	}
 	return out
 }
+
+// GlobalNames gives stable names to the cells reachable from package-level variables
+// (struct fields, array and slice elements, pointees), restricted to the cells in want.
+// Names are comparable across paths, which cell addresses are not (C11 cross-function
+// scenarios).
+func (e *Exec) GlobalNames(want map[*Value]bool) map[*Value]string {
+	out := map[*Value]string{}
+	type g struct {
+		name string
+		cell *Value
+	}
+	var gs []g
+	for sg, cell := range e.globals {
+		if sg.Pkg == nil || sg.Pkg.Pkg == nil {
+			continue
+		}
+		gs = append(gs, g{sg.Pkg.Pkg.Path() + "." + sg.Name(), cell})
+	}
+	sort.Slice(gs, func(i, j int) bool { return gs[i].name < gs[j].name })
+	seen := map[*Value]bool{}
+	var walk func(p *Value, name string, depth int)
+	walk = func(p *Value, name string, depth int) {
+		if p == nil || seen[p] || depth > 6 {
+			return
+		}
+		seen[p] = true
+		if want[p] {
+			out[p] = name
+		}
+		switch v := (*p).(type) {
+		case StructV:
+			for i := range v {
+				walk(&v[i], fmt.Sprintf("%s.f%d", name, i), depth+1)
+			}
+		case ArrayV:
+			for i := range v {
+				walk(&v[i], fmt.Sprintf("%s[%d]", name, i), depth+1)
+			}
+		case *SliceV:
+			if v != nil {
+				for i := range v.A {
+					walk(&v.A[i], fmt.Sprintf("%s[%d]", name, i), depth+1)
+				}
+			}
+		case *Value:
+			walk(v, name+".*", depth+1)
+		}
+	}
+	for _, x := range gs {
+		walk(x.cell, x.name, 0)
+	}
+	return out
+}
